@@ -90,7 +90,10 @@ class LogPlugin(PrimitiveLeafPlugin):
 
         reduce_getter = getattr(x_val, "producer", lambda: None)
         reduce_node = reduce_getter() if callable(reduce_getter) else None
-        if getattr(reduce_node, "op_type", "") == "ReduceSum":
+        if (
+            getattr(reduce_node, "op_type", "") == "ReduceSum"
+            and (getattr(reduce_node, "domain", "") or "") == ""
+        ):
             reduce_inputs = list(getattr(reduce_node, "inputs", ()))
             reduce_attrs = getattr(reduce_node, "attributes", None)
             keepdims_attr = None
@@ -111,7 +114,11 @@ class LogPlugin(PrimitiveLeafPlugin):
                 exp_getter = getattr(reduce_data, "producer", lambda: None)
                 exp_node = exp_getter() if callable(exp_getter) else None
                 exp_inputs = list(getattr(exp_node, "inputs", ()))
-                if getattr(exp_node, "op_type", "") == "Exp" and exp_inputs:
+                if (
+                    getattr(exp_node, "op_type", "") == "Exp"
+                    and (getattr(exp_node, "domain", "") or "") == ""
+                    and exp_inputs
+                ):
                     target_data = exp_inputs[0]
                     op_type = "ReduceLogSumExp"
                 else:
